@@ -26,8 +26,8 @@ class DictValue(GenericValue):
                 old_value = {}
 
             child_node = None
-            if self._ast_node is not None:
-                assert isinstance(self._ast_node, ast.Dict)
+            # the dict can also be written as dict(a=1) or come from a variable
+            if isinstance(self._ast_node, ast.Dict):
                 if (
                     index in old_value
                     and not any(key is None for key in self._ast_node.keys)
@@ -71,12 +71,13 @@ class DictValue(GenericValue):
         if self._ast_node is None:
             values = [None] * len(self._old_value)
         else:
-            assert isinstance(self._ast_node, ast.Dict)
-            if any(key is None for key in self._ast_node.keys) or len(
-                self._ast_node.keys
-            ) != len(self._old_value):
-                # dict unpacking (and keys which are written twice) are not
-                # supported inside snapshots: values can not be mapped to nodes
+            if (
+                not isinstance(self._ast_node, ast.Dict)
+                or any(key is None for key in self._ast_node.keys)
+                or len(self._ast_node.keys) != len(self._old_value)
+            ):
+                # only dict displays are supported: dict(a=1), dict unpacking
+                # and keys which are written twice can not be mapped to nodes
                 return
             values = self._ast_node.values
 
